@@ -17,7 +17,7 @@ from engine.ref import ConcreteNet
 from checks import common
 
 PROP = "C19"
-STRATS = ["build", "bfs", "dfs", "scc", "aseeds", "min"]
+STRATS = ["build", "bfs", "dfs", "scc", "aseeds", "min"]     # + "skip", "block", "blockn" on dedicated families (tasks())
 FUNCTIONS = ["SuccessionDiagram._expand_one_node (sorted children)", "expand_* strategies (sorted traversal)", "compute_attractor_candidates / run_simulation_minification (fixed seed)",
              "control.succession_control / Intervention (canonical form)", "expand_source_blocks (block ordering)"]
 OTHER = "x, !y\ny, x | z\nz, !z & x\n"
@@ -80,6 +80,10 @@ def _run_once(rules, strat, names):
         sd.expand_dfs()
     elif strat == "scc":
         sd.expand_scc()
+    elif strat == "block":
+        sd.expand_block()
+    elif strat == "blockn":
+        sd.expand_block(find_motif_avoidant_attractors=False)
     elif strat == "aseeds":
         sd.expand_attractor_seeds()
     elif strat == "min":
@@ -178,7 +182,7 @@ def pick_hash_seeds(names, k=2):
     return _SEEDS[key]
 
 
-def execute(rules, strat, names, cross=True, nseeds=2):
+def execute(rules, strat, names, cross=True, nseeds=2, extra_seeds=()):
     a = run_once(rules, strat, names)
     asc = with_set_order("asc", lambda: run_once(rules, strat, names))
     desc = with_set_order("desc", lambda: run_once(rules, strat, names))
@@ -190,7 +194,7 @@ def execute(rules, strat, names, cross=True, nseeds=2):
     b = run_once(rules, strat, names)
     out = {"a": a, "b": b, "asc": asc, "desc": desc}
     if cross:
-        hs = pick_hash_seeds(names, nseeds)
+        hs = list(pick_hash_seeds(names, nseeds)) + [h for h in extra_seeds if h not in pick_hash_seeds(names, nseeds)]
         for i, h in enumerate(hs):
             out[f"c{i + 1}"] = fresh_process(rules, strat, names, h)
         out["hash_seeds"] = list(hs)
@@ -239,7 +243,9 @@ def run_task(task):
 
 def replay(rec):
     B = ConcreteNet.from_bnet(rec["rules"])
-    out = execute(rec["rules"], rec["params"]["strat"], B.names, cross=True, nseeds=max(4, int(rec["params"].get("nseeds", 2))))
+    # the replay process runs under PYTHONHASHSEED=0; a dependence on the hash seed that the exploring worker saw under its own
+    # (random) seed is looked for under the calibrated seeds and under the fixed seeds 1..8
+    out = execute(rec["rules"], rec["params"]["strat"], B.names, cross=True, nseeds=max(4, int(rec["params"].get("nseeds", 2))), extra_seeds=tuple(range(1, 9)))
     parts = assertion(B, out)
     if rec["params"].get("selftest"):
         parts.append(("selftest", False))
@@ -272,14 +278,20 @@ def tasks(tier, seed, selftest=False):
         # "P:RING3+SW2": a stub that fixes more than half of the variables and still holds two minimal trap spaces
         for fam in ("P:RING3+SW2", "P:SW2+SW2", "D3"):
             T.append({"prop": PROP, "family": fam, "label": f"{fam}/skip", "timebox": 40 if q else 900, "seed": seed, "params": {"strat": "skip", "cross_every": 1, "nseeds": 4}})
+        # two independent switches: the root has two incomparable minimal source blocks with equally many motifs, so the
+        # block expansion has to break a tie (the order of the blocks must not come from a set / dict of frozensets);
+        # set comprehensions and frozensets are not reached by the OrdSet stand-in, so every class is compared across
+        # four fresh interpreters with calibrated hash seeds
+        for fam, st in (("P:SW2+SW2", "block"), ("P:SW2+SW2", "blockn"), ("P:MAA3+SW2", "block"), ("D3", "block"), ("D3", "blockn"), ("P:SW2+SW2", "scc")):
+            T.append({"prop": PROP, "family": fam, "label": f"{fam}/{st}", "timebox": 40 if q else 900, "seed": seed, "params": {"strat": st, "cross_every": 1, "nseeds": 4}})
     return T
 
 
 def main(tier, seed, t0, selftest=False):
     results = common.run_tasks(tasks(tier, seed, selftest))
     return common.finish(PROP, tier, seed, "model_checking", results, t0, selftest=selftest, functions=FUNCTIONS,
-                         bounds={"strategies": ",".join(STRATS) + " + succession_control (both strategies, incl. all_control_strategies()) towards the first three minimal trap spaces",
+                         bounds={"strategies": ",".join(STRATS) + ",skip,block (expand_block),blockn (expand_block without MAA search)" + " + succession_control (both strategies, incl. all_control_strategies()) towards the first three minimal trap spaces",
                                  "set order": "every class additionally runs with all biobalm-level set() objects iterating in ascending and in descending order (deterministic stand-in for the hash seed; class-constant)",
-                                 "families": "U2, D3, SYM4 (4 variables, two-variable motif with symmetric two-variable drivers), U3sym (3 variables constrained by the solver to have symmetric driver sets) (quick, time-boxed; fresh-interpreter comparison on every 3rd/5th/every class); + B22 (thorough)",
+                                 "families": "U2, D3, SYM4 (4 variables, two-variable motif with symmetric two-variable drivers), U3sym (3 variables constrained by the solver to have symmetric driver sets) (quick, time-boxed; fresh-interpreter comparison on every 3rd/5th/every class); P:SW2+SW2 and P:MAA3+SW2 (products with two independent source blocks) under block expansion with four fresh interpreters per class; + B22 (thorough)",
                                  "hash seeds": "harness process seed + two PYTHONHASHSEEDs calibrated per variable-name set so that sets of the names iterate in maximally different orders (sampled dimension; CPython string hashing is not encoded)"},
                          assumptions=["the cross-process comparison is per representative; only the in-process comparison is class-constant"])
